@@ -83,10 +83,43 @@ func (st *State) call(f *Frame, ins ssa.Instruction, cc *ssa.CallCommon, opts *c
 	}
 	if fnv.Fn == nil {
 		// call through an unknown function value
-		if fnv.Term != "" {
+		iterated := false
+		parName := ""
+		switch v := cc.Value.(type) {
+		case *ssa.Parameter:
+			parName = v.Name()
+		case *ssa.UnOp:
+			// naive form: parameters live in a local cell
+			if al, ok := v.X.(*ssa.Alloc); ok && !al.Heap {
+				for _, p := range f.fn.Params {
+					if p.Name() == al.Comment {
+						parName = al.Comment
+					}
+				}
+			}
+		}
+		if parName != "" && f == st.frames[0] && f.contract != nil {
+			for _, it := range f.contract.Iterates {
+				if it.Param == parName {
+					// the callback this function is declared to iterate: its effects are accounted for
+					// at the call sites of this function (callback iteration); here, every value handed
+					// to it must satisfy the `where` clause the callers rely on
+					iterated = true
+					env := st.specEnv(f, nil, false)
+					if len(args) > 0 {
+						env.vars[it.Var] = args[0]
+					}
+					cl := &Clause{Src: it.Src, File: f.contract.File, Line: f.contract.Line}
+					st.oblige("pre", "iter-arg:"+ord, st.evalBool(it.Where, env, cl), "argument of the iterated callback: "+it.Src+" at "+st.pos(ins))
+				}
+			}
+		}
+		if fnv.Term != "" && !iterated {
 			st.panicOb2(f, ins, "nilfunc:"+ord, not(eq(fnv.Term, nilRef)), "call of nil function value")
 		}
-		if fnv.Term != "" && st.known[app("fn_pure", fnv.Term)] {
+		if iterated && !(fnv.Term != "" && st.known[app("fn_pure", fnv.Term)]) {
+			st.havocAll("the iterated callback " + cc.Value.Name() + " runs (effects framed by the caller)")
+		} else if fnv.Term != "" && st.known[app("fn_pure", fnv.Term)] {
 			st.res.Assumed["function value "+cc.Value.Name()+" in "+f.fn.Name()+" is pure (stated as a precondition)"] = true
 		} else {
 			st.frameCheckEntry(ins, modEntry{kind: "all"}, "frame:unknown-"+ord)
